@@ -387,10 +387,13 @@ def r141(ctx, rep, f, ev, cg, reach):
     ini = [o for o in recs if "call" in o and o["call"].endswith("::initial_collect_stats")]
     rep.check(len(ini) == 1 and tuple(ini[0]["guard"]) == ("Eq(sym(self.tracker.memory_address_bytes),0x0)",), "R14.1", "R14.1|initial|guard",
               "run trigger type / data format / system id are taken from the RDH at position 0", WS, "initial_collect_stats guards: %s" % [o["guard"] for o in ini])
-    recs = [o for o in _recs(ev, IS + "initial_collect_stats", [Sym("self"), Sym("rdh")]) if "call" in o]
+    # evaluated on the wire image of the RDH: data format is byte 24 (R[199:192]) and system id byte 5 (R[47:40]),
+    # however the accessors mask, shift or truncate
+    RCRU = "alice_protocol_reader::rdh::rdh_cru::RdhCru"
+    recs = [o for o in _recs(ev, IS + "initial_collect_stats", [Sym("self"), Obj("R", 0, RCRU)]) if "call" in o]
     got = sorted((o["call"].split("::")[-1], o["args"][1]) for o in recs)
-    exp = sorted([("report_run_trigger_type", "sym(rdh)"), ("report", "InputStatType::DataFormat(0=sym(cast(sym(BitAnd(sym(rdh.dataformat_reserved0.0),0xff)) as u8)))"),
-                  ("report", "InputStatType::SystemId(0=sym(rdh.rdh0.system_id))")])
+    exp = sorted([("report_run_trigger_type", vkey(Obj("R", 0, RCRU))), ("report", "InputStatType::DataFormat(0={b0..7=R[199:192]})"),
+                  ("report", "InputStatType::SystemId(0={b0..7=R[47:40]})")])
     rep.check(got == exp, "R14.1", "R14.1|initial|content", "first RDH → RunTriggerType, DataFormat(data_format()), SystemId(rdh0.system_id)", WS, "initial_collect_stats: %s" % got)
     recs = [o for o in _recs(ev, IS + "report_run_trigger_type", [Sym("self"), Sym("rdh")]) if "call" in o and o["call"].endswith("::report")]
     rep.check(len(recs) == 1 and recs[0]["args"][1] == "InputStatType::RunTriggerType(0=sym(rdh.rdh2.trigger_type))", "R14.1", "R14.1|initial|run-trigger", "RunTriggerType carries the RDH's trigger_type", WS,
